@@ -127,7 +127,7 @@ ALL_MENU = (
     "shape:T", "shape:D", "shape:nest", "shape:wrap1",
     "ins:raise", "ins:probe", "ins:res", "ins:mkitem", "ins:mkchild", "ins:sync", "ins:iv", "ins:yempty", "ins:ynone",
     "wrap:try", "wrap:A", "wrap:N", "wrap:S0", "wrap:S1", "wrap:P0", "wrap:Xp", "wrap:Xr", "wrap:Xq",
-    "flush:raise", "flush:raiseB", "flush:new", "flush:setraise", "flush:nested",
+    "flush:raise", "flush:raiseB", "flush:new", "flush:setraise", "flush:nested", "flush:fcancel", "flush:fcancelraise", "flush:setfcancel", "flush:hooknested",
     "leaf:dd", "ins:ddirty", "item:errf", "ins:caught", "leaf:cw", "wrap:ovl", "leaf:bt", "ins:cancel", "leaf:dd1",
 )
 DD_ALTS = (("f", 1, "pos"), ("f", 1, "kw"), ("f", 1, "def"), ("f", 2, "pos"), ("g", 1, "pos"),
@@ -153,10 +153,10 @@ def variants(prog, menu):
     # flush modes
     kinds = sorted(_kinds(prog))
     fmd = dict(fm)
-    for m in ("raise", "raiseB", "new", "setraise", "nested"):
+    for m in ("raise", "raiseB", "new", "setraise", "nested", "fcancel", "fcancelraise", "setfcancel", "hooknested"):
         if "flush:" + m in menu:
             for k in kinds:
-                if m == "nested" and k != "a":
+                if m in ("nested", "hooknested") and k != "a":
                     continue
                 if k not in fmd:
                     yield ("P", root, shared, tuple(sorted(list(fm) + [(k, m)])))
